@@ -224,9 +224,11 @@ def s_match_constant(ctx):
     I.models[math.isclose] = m_isclose
     self = SObj(_matcher.SimplePatternMatcher, "matcher")
 
+    ghost = {"failed": False}
+
     def fail(*a, **k):
         raise AssertionError
-    I.models[fail] = lambda interp, *a, **k: False
+    I.models[fail] = lambda interp, *a, **k: ghost.__setitem__("failed", True) or False
     self.fields["fail"] = fail
     pc = SObj(_pattern_ir.Constant, "constpattern")
     pval = ctx.const("pattern_value", z3.RealSort())
@@ -259,6 +261,8 @@ def s_match_constant(ctx):
     value.fields.update(const_value=(tensor if has_const else None), name="v", is_graph_input=f_gi)
     clo = I.closure_of(_matcher.SimplePatternMatcher._match_constant)
     r = I.run_closure(clo, [self, pc, value], {})
+    ctx.check("C06.matcher.match_constant.a_false_result_is_recorded_as_a_failed_match",
+              z3.Or(z3.BoolVal(r) if isinstance(r, bool) else term(r), z3.BoolVal(ghost["failed"])), "C06: 'a reported match is an occurrence of the pattern' — match() returns the MatchResult, which is truthy unless a failure was recorded")
     ab = lambda t: z3.If(t >= 0, t, -t)
     mx = z3.If(ab(cval) >= ab(pval), ab(cval), ab(pval))
     lim = z3.If(rel * mx >= abs_, rel * mx, abs_)
@@ -375,6 +379,8 @@ class MatchStub:
     def bind_value(self, pattern_value, value):
         ok = self.ctx.choose(2, f"bind_value #{len([c for c in self.calls if c[0] == 'bind_value'])} succeeds") == 0
         self.calls.append(("bind_value", pattern_value, value, ok))
+        if not ok:
+            self.failed = True  # MatchResult.bind_value / bind call fail() before returning False
         return ok
 
     def bind(self, var, value):
@@ -406,10 +412,8 @@ def _matcher_self(I, ctx, match, graph=None):
     from onnxscript.rewriter import _matcher
     self = SObj(_matcher.SimplePatternMatcher, "matcher")
 
-    def fail(*a, **k):
-        raise AssertionError
-    I.models[fail] = lambda interp, *a, **k: False
-    self.fields.update(fail=fail, _match=match, _verbose=0, _current_node=None, _graph=graph)
+    # SimplePatternMatcher.fail is the real one (interpreted): it records the failure in self._match and returns False
+    self.fields.update(_match=match, _verbose=0, _current_node=None, _graph=graph)
     return self
 
 
@@ -445,10 +449,15 @@ def s_match_node(ctx):
     def m_match_value(interp, slf, pat, val):
         ok = ctx.choose(2, f"input {len(mv)} matches") == 0
         mv.append((pat, val, ok))
+        if not ok:
+            match.failed = True  # callee contract: a False result comes with a recorded failure
         return ok
     I.models[_matcher.SimplePatternMatcher._match_value] = m_match_value
     r = I.run_closure(I.closure_of(_matcher.SimplePatternMatcher._match_node), [self, pn, node], {})
     r = bool(r)
+    ctx.check("C06.matcher.match_node.a_false_result_is_recorded_as_a_failed_match", r or match.failed,
+              "C06: 'a reported match is an occurrence of the pattern' — match() returns the MatchResult, which is truthy unless a failure was "
+              "recorded: a False that is not recorded turns into a reported match with missing bindings")
     if prior != "unmatched":
         ctx.check("C06.matcher.match_node.a_pattern_node_matches_one_graph_node_only", r == (prior == "same node") and not mv and not match.calls, CL)
         return
@@ -515,6 +524,8 @@ def s_match_value(ctx):
         def m(interp, slf, *a):
             ok = ctx.choose(2, f"{tag} #{len(sub)} succeeds") == 0
             sub.append((tag, a, ok))
+            if not ok:
+                match.failed = True  # callee contract
             return ok
         return m
     I.models[_matcher.SimplePatternMatcher._match_node_output] = rec("node_output")
@@ -550,9 +561,12 @@ def s_match_value(ctx):
             return interp.run_closure(clo, [slf, pat, val], {})
         ok = ctx.choose(2, f"alternative #{len(sub)} matches") == 0
         sub.append(("alt", (pat, val), ok))
+        if not ok:
+            match.failed = True  # callee contract
         return ok
     I.models[_matcher.SimplePatternMatcher._match_value] = m_match_value
     r = bool(I.call(I.getattr(self, "_match_value"), [pv, value]))
+    ctx.check("C06.matcher.match_value.a_false_result_is_recorded_as_a_failed_match", r or match.failed, "C06: 'a reported match is an occurrence of the pattern' — match() returns the MatchResult, which is truthy unless a failure was recorded")
     binds = [c for c in match.calls if c[0] == "bind_value"]
     cross = vkind == "other graph" and kind not in ("AnyValue", "Var", "Constant")
     if cross:
@@ -632,9 +646,12 @@ def s_match_node_output(ctx):
     def m_match_node(interp, slf, p, n):
         ok = ctx.choose(2, "producer node matches") == 0
         calls.append((p, n, ok))
+        if not ok:
+            match.failed = True  # callee contract
         return ok
     I.models[_matcher.SimplePatternMatcher._match_node] = m_match_node
     r = bool(I.run_closure(I.closure_of(_matcher.SimplePatternMatcher._match_node_output), [self, pv, value], {}))
+    ctx.check("C06.matcher.match_node_output.a_false_result_is_recorded_as_a_failed_match", r or match.failed, "C06: 'a reported match is an occurrence of the pattern' — match() returns the MatchResult, which is truthy unless a failure was recorded")
     if not has_prod or idx != want_idx:
         ctx.check("C06.matcher.match_node_output.needs_a_producer_and_the_same_output_index", r is False and not calls, CL)
     else:
